@@ -11,7 +11,9 @@ import (
 	"math/rand"
 	"os"
 	"path/filepath"
+	"runtime"
 	"strings"
+	"syscall"
 	"time"
 
 	"github.com/gokrazy/rsync/rsyncclient"
@@ -43,6 +45,7 @@ type hostileObs struct {
 	Kind     string          `json:"kind"`
 	Alive    bool            `json:"alive"`
 	Ended    bool            `json:"ended"`
+	Retire   bool            `json:"retire_worker,omitempty"` // the victim still runs: do not reuse this worker
 	NextOK   bool            `json:"nextok"`
 	Result   string          `json:"result"`   // what the attacked session returned: error text or "ok"
 	Hit      bool            `json:"hit"`      // the field exists in the script (the mutation was applied)
@@ -216,25 +219,35 @@ func waitDone(done chan error, closeFn func(), pipes []*xport.Pipe) (bool, error
 		}
 		return s
 	}
-	last, lastChange := progress(), time.Now()
+	last := progress()
 	closed := false
-	deadline := time.Now().Add(60 * time.Second)
+	var idle idleMeter
+	cpu0 := processCPU()
 	for {
 		select {
 		case err := <-done:
 			return true, err
-		case <-time.After(20 * time.Millisecond):
+		case <-time.After(idleTick):
 		}
+		if processCPU()-cpu0 > 40*time.Second {
+			// the victim neither ends nor rests: it has burnt 40 s of CPU on a
+			// script of a few hundred bytes (a budget in CPU time, not wall time,
+			// so that a loaded machine does not change the observation)
+			buf := make([]byte, 1<<20)
+			return false, fmt.Errorf("BUSY: the victim burnt 40 s of CPU without ending:\n%s", busySummary(string(buf[:runtime.Stack(buf, true)])))
+		}
+		quiet := idle.sample()
 		if p := progress(); p != last {
-			last, lastChange = p, time.Now()
-		} else if !closed && time.Since(lastChange) > 300*time.Millisecond {
+			last = p
+			idle.n = 0
+			continue
+		}
+		if !closed && quiet >= 300*time.Millisecond {
+			// nothing moves and the victim is parked: it waits for more input
 			closeFn()
 			closed = true
-			lastChange = time.Now()
-		} else if closed && time.Since(lastChange) > 20*time.Second {
-			return false, nil
-		}
-		if time.Now().After(deadline) {
+			idle.n = 0
+		} else if closed && quiet >= 5*time.Second {
 			return false, nil
 		}
 	}
@@ -309,6 +322,7 @@ func hostileHandler(w *workerCtx, line []byte) (any, error) {
 		ended, herr := waitDone(done, func() { a.Out.CloseWrite() }, []*xport.Pipe{a.In, a.Out})
 		a.Close()
 		obs.Ended = ended
+		obs.Retire = !ended
 		if herr != nil {
 			obs.Result = herr.Error()
 		} else if ended {
@@ -346,6 +360,7 @@ func hostileHandler(w *workerCtx, line []byte) (any, error) {
 		ended, herr := waitDone(done, func() { b.Out.CloseWrite() }, []*xport.Pipe{b.In, b.Out})
 		b.Close()
 		obs.Ended = ended
+		obs.Retire = !ended
 		if herr != nil {
 			obs.Result = herr.Error()
 		} else if ended {
@@ -479,7 +494,7 @@ func readDaemonSeed(a *xport.End) (int32, bool) {
 	select {
 	case r := <-ch:
 		return r.seed, r.ok
-	case <-time.After(2 * time.Second):
+	case <-idleAfter(2 * time.Second):
 		return 0, false
 	}
 }
@@ -567,7 +582,43 @@ func canonicalPull(srv *rsyncd.Server) error {
 	select {
 	case err := <-errc:
 		return err
-	case <-time.After(10 * time.Second):
+	case <-idleAfter(10 * time.Second):
 		return fmt.Errorf("canonical request timed out")
 	}
+}
+
+// processCPU is the CPU time (user + system) this process has consumed.
+func processCPU() time.Duration {
+	var ru syscall.Rusage
+	if err := syscall.Getrusage(syscall.RUSAGE_SELF, &ru); err != nil {
+		return 0
+	}
+	return time.Duration(ru.Utime.Nano() + ru.Stime.Nano())
+}
+
+// busySummary lists, from a goroutine dump, the frames of the system under
+// test in goroutines that are running or runnable.
+func busySummary(dump string) string {
+	var out []string
+	for _, g := range strings.Split(dump, "\n\n") {
+		if !strings.Contains(g, "[runnable") && !strings.Contains(g, "[running") {
+			continue
+		}
+		var fr []string
+		for _, l := range strings.Split(g, "\n") {
+			if strings.Contains(l, "gokrazy/rsync/") && !strings.Contains(l, "verifharness") && !strings.HasPrefix(l, "\t") {
+				if i := strings.LastIndex(l, "("); i > 0 {
+					l = l[:i]
+				}
+				fr = append(fr, strings.TrimPrefix(strings.TrimSpace(l), "github.com/gokrazy/rsync/"))
+			}
+		}
+		if len(fr) > 0 {
+			if len(fr) > 4 {
+				fr = fr[:4]
+			}
+			out = append(out, "busy in "+strings.Join(fr, " <- "))
+		}
+	}
+	return strings.Join(out, "\n")
 }
